@@ -111,6 +111,7 @@ theorem PodsFrom.micro {jo : JobObj} {sp s s' : Sys} (h : PodsFrom jo sp s) (hd 
     · intro q hq; rw [hs.pods] at hq; exact h q hq
   | updJob _ => intro q hq; rw [apiUpdateJob_pods] at hq; exact h q hq
   | updStatus => intro q hq; rw [apiUpdateJobStatus_pods] at hq; exact h q hq
+  | updStatusOn s1 hs1 hs hok => intro q hq; rw [apiUpdateJobStatus_pods] at hq; exact h q hq
 
 theorem PodsFrom.micros {jo : JobObj} {sp s s' : Sys} (h : PodsFrom jo sp s) (hd : s.d = sp.d)
     (hm : Micros jo sp s s') : PodsFrom jo sp s' := by
